@@ -147,7 +147,44 @@ def k_first_octet(ctx, p, n):
             ctx.fail("cds.refusal", "wrong_error", f"{name}/{type(res).__name__}", case, error=repr(res))
 
 
-KINDS = {"stamp": k_stamp, "monotonic": k_monotonic, "from_datetime": k_from_datetime, "add": k_add, "first_octet": k_first_octet}
+def k_stamp_history(ctx, seed):
+    """One timestamp object that is packed, refreshed from raw octets (read_from_raw) and advanced (+ timedelta, which
+    updates the object in place) in any order: after every step every view is the view of the current (day, ms) pair."""
+    import random
+    T = _cls()
+    r = random.Random(f"stamph/{seed}")
+    case = {"k": "stamp_history", "seed": seed}
+    ctx.case("stamp_history", seed, sample=case)
+    d, m = r.choice((0, 4382, 4383, r.getrandbits(16), r.randrange(60000))), r.choice((0, 1, MS - 1, r.randrange(MS)))
+    t = T(d, m) if r.random() < 0.5 else T.unpack(R.encode(d, m))
+    trail = []
+    for step in range(r.randrange(2, 9)):
+        op = r.choice(("pack", "read_from_raw", "add", "views", "pack"))
+        trail.append(op)
+        if op == "read_from_raw":
+            d, m = r.getrandbits(16), r.randrange(MS)
+            t.read_from_raw(R.encode(d, m) + r.randbytes(r.choice((0, 0, 3))))
+        elif op == "add":
+            td = dt.timedelta(days=r.choice((0, 0, 1, 30)), seconds=r.randrange(86400), microseconds=1000 * r.randrange(1000))
+            w = R.add(d, m, td)
+            if w is None:
+                continue
+            res = t + td
+            d, m = w
+            if res is not t:
+                t = res
+        elif op == "views":
+            t.as_datetime(), t.as_unix_seconds()
+        ctx.table("stamp_history_ops", op)
+        ok, got = attempt(lambda: (bytes(t.pack()), t.ccsds_days, t.ms_of_day, t.as_datetime(), t == T(d, m), T.unpack(bytes(t.pack())) == t))
+        want = (R.encode(d, m), d, m, R.instant(d, m), True, True)
+        if not ctx.check("cds.history", ok and got == want and abs(t.as_unix_seconds() - R.unix_seconds_exact(d, m) / 1000) < 1e-6, "views_disagree_with_current_value",
+                         "" if not ok else ",".join(n for n, g, w_ in zip(("pack", "days", "ms", "datetime", "eq_fresh", "roundtrip"), got, want) if g != w_) or "unix_seconds",
+                         case, trail=trail, observed=repr(got)[:300], expected=repr(want)[:300]):
+            return
+
+
+KINDS = {"stamp_history": k_stamp_history, "stamp": k_stamp, "monotonic": k_monotonic, "from_datetime": k_from_datetime, "add": k_add, "first_octet": k_first_octet}
 MAX_US = (65536 * MS - 1) * 1000 + 999
 
 
@@ -221,6 +258,8 @@ def run(ctx):
             k_add(ctx, r.randrange(65500, 65536), m, r.randrange(0, 40), r.randrange(86400), r.randrange(1_000_000))    # overflow edge
         else:
             k_add(ctx, d, m, r.choice((0, 0, 1, 2, 365, r.randrange(0, 70000))), r.randrange(86400), r.randrange(1_000_000))
+    for j in range(ctx.n(1500, 150_000)):
+        k_stamp_history(ctx, ctx.seed * 1_000_003 + ctx.shard[0] * 100_003 + j)
     for p in range(256):
         k_first_octet(ctx, p, 7)
         k_first_octet(ctx, p, 9)
@@ -237,5 +276,5 @@ def conclude(ctx):
     for c in ("stamp/pre1970", "stamp/post1970", "from_datetime/pre1970/whole_ms", "from_datetime/post1970/whole_ms", "from_datetime/pre1970/sub_ms",
               "from_datetime/post1970/sub_ms", "add/overflow", "add/exactly_midnight", "add/carry", "add/no_carry", "monotonic", "first_octet"):
         ctx.require(ctx.classes.get(c, 0) > 0, f"class {c} empty")
-    for m in ("cds.pack", "cds.unpack", "cds.as_datetime", "cds.as_unix_seconds", "cds.monotonic", "cds.from_datetime", "cds.add", "cds.refusal"):
+    for m in ("cds.pack", "cds.unpack", "cds.as_datetime", "cds.as_unix_seconds", "cds.monotonic", "cds.from_datetime", "cds.add", "cds.refusal", "cds.history"):
         ctx.require(ctx.monitors.get(m, {}).get("evaluations", 0) > 0, f"monitor {m} never evaluated")
